@@ -290,6 +290,135 @@ def evalUnder (π : EnumOrder) : Ex → Res
     | .ok x => .ok (C06.Impl.build [x])
     | .err => .err
 
+end Impl
+
+/-! ### constructs that pick "an element" or depend on "the first element" of an enumeration
+
+These are outside the fragment of the theorems; they are predicted under the identity order and tied to the
+implementation by the N-process run (an outcome — value or error — must be the same in every process). -/
+
+/-- a relation literal over k, v, i: row `j` is `(k, v, i: j)` -/
+def kvRows (rows : List (Int × Int)) : List Rep :=
+  rows.zipIdx.map (fun (r, j) => .gtuple [("k", .num r.1), ("v", .num r.2), ("i", .num j)])
+
+def kvSrc (rows : List (Int × Int)) : String :=
+  "{|k, v, i| " ++ ", ".intercalate (rows.zipIdx.map (fun (r, j) =>
+    "(" ++ Lit.numSrc r.1 ++ ", " ++ Lit.numSrc r.2 ++ ", " ++ toString j ++ ")")) ++ "}"
+
+inductive Pg where
+  /-- mode 0: `let {L…, a} = S; a`   1: `let {L…, ...t} = S; t`   2: `cond S {{L…, a}: a, _: 'none'}` -/
+  | setpat (lits : List (String × Rep)) (mode : Nat) (s : Ex)
+  /-- `R rank (rk: .k, rv: .v[, rm: .i % 3])`; post 0: the relation, 1: `(… where .v = c) => .rk`, 2: `… => (a: .rk, b: .rv)` -/
+  | rank (rows : List (Int × Int)) (three : Bool) (post : Nat) (c : Int)
+  /-- `(S orderby f) >> f`: with tied keys only tied members may swap, so the sequence of keys is determined -/
+  | orderbyKeys (s : Ex) (f : Fn)
+  /-- op 0: `S max f`, 1: `S min f` -/
+  | reduce (s : Ex) (op : Nat) (f : Fn)
+  /-- mode 0: `R nest |v, i|g`, 1: `R nest |i|g` -/
+  | nest (rows : List (Int × Int)) (mode : Nat)
+  /-- `(R orderby .k) >> .v`?  no: `(R orderby .k) >> .k` (tied keys: the key sequence is determined), or with the
+  tie-free key `(k: .k, i: .i)` the rows themselves: mode 0 / 1 -/
+  | orderbyAttr (rows : List (Int × Int)) (mode : Nat)
+  deriving Inhabited
+
+def Pg.src : Pg → String
+  | .setpat lits mode s =>
+    let ls := lits.map (·.1)
+    match mode with
+    | 0 => "let {" ++ ", ".intercalate (ls ++ ["a"]) ++ "} = " ++ s.src ++ "; a"
+    | 1 => "let {" ++ ", ".intercalate (ls ++ ["...t"]) ++ "} = " ++ s.src ++ "; t"
+    | _ => "cond " ++ s.src ++ " {{" ++ ", ".intercalate (ls ++ ["a"]) ++ "}: a, _: 'none'}"
+  | .rank rows three post c =>
+    let rk := "(" ++ kvSrc rows ++ " rank (rk: .k, rv: .v" ++ (if three then ", rm: .i % 3" else "") ++ "))"
+    match post with
+    | 0 => rk
+    | 1 => "((" ++ rk ++ " where .v = " ++ Lit.numSrc c ++ ") => .rk)"
+    | _ => "(" ++ rk ++ " => (a: .rk, b: .rv))"
+  | .orderbyKeys s f => "((" ++ s.src ++ " orderby " ++ f.src ++ ") >> " ++ f.src ++ ")"
+  | .reduce s op f => "(" ++ s.src ++ (if op == 0 then " max " else " min ") ++ f.src ++ ")"
+  | .nest rows mode => "(" ++ kvSrc rows ++ (if mode == 0 then " nest |v, i|g)" else " nest |i|g)")
+  | .orderbyAttr rows mode =>
+    if mode == 0 then "((" ++ kvSrc rows ++ " orderby .k) >> .k)" else "(" ++ kvSrc rows ++ " orderby (k: .k, i: .i))"
+
+namespace Impl
+
+def attrOf (n : String) : Rep → Rep
+  | .gtuple as => C06.Impl.lookupAttr n as
+  | r => r
+
+def withAttr (n : String) (v : Rep) : Rep → Rep
+  | .gtuple as => .gtuple (as ++ [(n, v)])
+  | r => r
+
+/-- `Rank` with several ranking attributes: for each attribute, a row's rank is the number of rows whose value of that
+attribute is strictly smaller -/
+def rankMany (keyfs : List (String × (Rep → Rep))) (rows : List Rep) : List Rep :=
+  keyfs.foldl (fun rs (nf : String × (Rep → Rep)) =>
+    let ranked := C06.Impl.rank nf.2 rs
+    rs.map (fun row =>
+      let r := ((ranked.find? (fun q => C06.Impl.equal q.1 row)).map (·.2)).getD 0
+      withAttr nf.1 (.num r) row)) rows
+
+def evalPg : Pg → Res
+  | .setpat lits mode s =>
+    let fail : Res := if mode == 2 then .ok (.str [110, 111, 110, 101] 0) else .err
+    match evalUnder (fun l => l) s with
+    | .err => .err
+    | .ok S =>
+      if !isSet S then fail
+      else
+        let ms := members S
+        if lits.length + 1 > ms.length + 1 then fail
+        else if !lits.all (fun l => ms.any (fun y => C06.Impl.equal y l.2)) then fail
+        else
+          let rest := ms.filter (fun y => !lits.any (fun l => C06.Impl.equal y l.2))
+          if mode == 1 then .ok (C06.Impl.build rest)
+          else match rest with
+            | [x] => .ok x
+            | _ => fail
+  | .rank rows three post c =>
+    let fs : List (String × (Rep → Rep)) :=
+      [("rk", attrOf "k"), ("rv", attrOf "v")] ++
+      (if three then [("rm", fun r => match attrOf "i" r with | .num i => .num (i % 3) | x => x)] else [])
+    let ranked := rankMany fs (kvRows rows)
+    if rows.isEmpty then .ok .empty
+    else match post with
+    | 0 => .ok (C06.Impl.build ranked)
+    | 1 => .ok (C06.Impl.build ((ranked.filter (fun r => C06.Impl.equal (attrOf "v" r) (.num c))).map (attrOf "rk")))
+    | _ => .ok (C06.Impl.build (ranked.map (fun r => C06.Impl.newTuple [("a", attrOf "rk" r), ("b", attrOf "rv" r)])))
+  | .orderbyKeys s f =>
+    match evalUnder (fun l => l) s with
+    | .ok S => if isSet S then .ok (C06.Impl.mkArray 0 (((C06.Impl.orderBy f.apply (members S)).map f.apply).map some)) else .err
+    | .err => .err
+  | .reduce s op f =>
+    match evalUnder (fun l => l) s with
+    | .ok S =>
+      if isSet S then
+        match (if op == 0 then C06.Impl.maxOf else C06.Impl.minOf) ((members S).map f.apply) with
+        | some x => .ok x
+        | none => .err
+      else .err
+    | .err => .err
+  | .orderbyAttr rows mode =>
+    let rs := kvRows rows
+    if mode == 0 then .ok (C06.Impl.mkArray 0 (((C06.Impl.orderBy (attrOf "k") rs).map (attrOf "k")).map some))
+    else .ok (C06.Impl.mkArray 0 ((C06.Impl.orderBy (fun r => .gtuple [("k", attrOf "k" r), ("i", attrOf "i" r)]) rs).map some))
+  | .nest rows mode =>
+    let rs := kvRows rows
+    if rs.isEmpty then .ok .empty
+    else
+      let outer (r : Rep) : List (String × Rep) :=
+        if mode == 0 then [("k", attrOf "k" r)] else [("k", attrOf "k" r), ("v", attrOf "v" r)]
+      let inner (r : Rep) : Rep :=
+        if mode == 0 then .gtuple [("v", attrOf "v" r), ("i", attrOf "i" r)] else .gtuple [("i", attrOf "i" r)]
+      .ok (C06.Impl.build (rs.map (fun r =>
+        let grp := rs.filter (fun q => C06.Impl.equal (.gtuple (outer q)) (.gtuple (outer r)))
+        .gtuple (outer r ++ [("g", C06.Impl.build (grp.map inner))]))))
+
+end Impl
+
+namespace Impl
+
 /-- `KF-superimposed`: two sugar tuples of one kind at the same index among the values handed to the set builder -/
 def superimposedL (ms : List Rep) : Bool :=
   let dup (l : List Int) := l.length != l.eraseDups.length
